@@ -1,13 +1,14 @@
 import Vflow.Model.Reader
+import Vflow.Model.Text
 import Vflow.Gen.InfoModelTbl
 /-!
 # Shared pieces of the IPFIX / NetFlow v9 models
 
 `ipfix/interpret.go` (`Interpret`, `minLen`), the information-model lookup (the *generated* table
 `Vflow.Gen.InfoModelTbl.infoModelTbl`), templates, decoded fields, and the template cache of
-`ipfix/memcache.go` / `netflow/v9/memcache.go` (a map keyed by the 32-bit FNV-1 hash of
-`addr ++ be16 id`; the shard index is `hash % 32`, a function of the key, so sequentially the 32
-shards behave as one map keyed by the hash).
+`ipfix/memcache.go` / `netflow/v9/memcache.go` (since the K1 repair: 32 shard maps keyed by the
+lower-case hex text of `addr ++ be16 id`; the shard is chosen by the 32-bit FNV-1 hash of the same
+octets modulo 32; sequentially the 32 maps are one map keyed by (shard index, key text)).
 -/
 namespace Vflow
 
@@ -176,11 +177,29 @@ abbrev Record := List DField
 def fnv1 (bs : Bytes) : Nat :=
   bs.foldl (fun h b => ((h * 16777619) % 4294967296) ^^^ b.toNat) 2166136261
 
-/-- `getShard`: key = addr ‖ be16 id, hashed -/
-def cacheKey (addr : Bytes) (id : Nat) : Nat := fnv1 (addr ++ encBE 2 id)
+/-- `getShard`: `key := append(addr, b...)` with `b` the big-endian template id -/
+def keyOctets (addr : Bytes) (id : Nat) : Bytes := addr ++ encBE 2 id
 
-/-- the cache as one association list keyed by the hash (first match wins; insert replaces) -/
-abbrev Cache := List (Nat × Template)
+/-- the key of the caches BEFORE the K1 repair (`Templates map[uint32]Data`): the hash of the key octets alone.
+Kept as a named definition: `C04.hash_collision_counterexample` is a statement about it. -/
+def oldCacheKey (addr : Bytes) (id : Nat) : Nat := fnv1 (keyOctets addr id)
+
+/-- `getShard`: the shard index `uint(hSum32) % uint(shardNo)` -/
+def shardOf (addr : Bytes) (id : Nat) : Nat := fnv1 (keyOctets addr id) % 32
+
+/-- `getShard`: the map key `hex.EncodeToString(key)` — two lower-case hex digits per octet of the address,
+then the four hex digits of the template id -/
+def keyText (addr : Bytes) (id : Nat) : Bytes := hexBytes (keyOctets addr id)
+
+/-- a key of the cache: (shard index, key text inside that shard's map). The two are kept apart because a cache
+loaded from a file holds whatever key texts the file had, in whatever shard they stood -/
+abbrev CKey := Nat × Bytes
+
+/-- `getShard` -/
+def cacheKey (addr : Bytes) (id : Nat) : CKey := (shardOf addr id, keyText addr id)
+
+/-- the cache as one association list keyed by (shard, key text) (first match wins; insert replaces) -/
+abbrev Cache := List (CKey × Template)
 
 def Cache.lookup (c : Cache) (addr : Bytes) (id : Nat) : Option Template :=
   (c.find? (fun e => e.1 = cacheKey addr id)).map (·.2)
